@@ -1018,7 +1018,8 @@ def rule_series_container(ctx, m):
               'expected detected_ndim to be set on the ndarray, list-of-arrays and list-of-lists paths (found %d stores)' % nd, f.line)
     pm, g = _func(m, 'dtaidistance.util', 'SeriesContainer.c_data_compat')
     repl = [s for s in walk_stmts(g.body) if s.k == 'assign' and s.target[0] == 'idx' and s.target[1] == ('attr', ('var', 'self'), 'series')]
-    ok = bool(repl) and all(fmt(s.value) == 'serie' for s in repl) and any('order=' in fmt(s.value) for s in walk_stmts(g.body) if s.k == 'assign' and s.target == ('var', 'serie'))
+    ok = bool(repl) and all(fmt(s.value) == 'serie' or 'order=' in fmt(s.value) for s in repl) and \
+        any('order=' in fmt(s.value) for s in walk_stmts(g.body) if s.k == 'assign' and (s.target == ('var', 'serie') or s in repl))
     guard = any(s.k == 'if' and 'c_contiguous' in fmt(s.cond) for s in walk_stmts(g.body))
     # every `if not X.flags.c_contiguous:` block makes a C-ordered copy AND installs it where the pointers are taken from (self.series / self.series[i])
     blocks = [s for s in walk_stmts(g.body) if s.k == 'if' and 'c_contiguous' in fmt(s.cond) and fmt(s.cond).lstrip('(').startswith('not')]
